@@ -57,6 +57,15 @@ func respBytes(r abci.ResponseDeliverTx) []byte {
 }
 
 // afterCommit replays the committed block on the twin and compares
+// diverge reports a disagreement between the node and its never-stopped, traffic-free twin: always a C09 matter, and a
+// C10 matter too once the node has been restarted
+func (x *Exec) diverge(detail string) {
+	x.Flag("C09-diverge", detail)
+	if x.Node != nil && x.Node.crashes > 0 {
+		x.Flag("C10-diverge-after-restart", detail)
+	}
+}
+
 func (x *Exec) nodeAfterCommit(appHash []byte) {
 	ns := x.Node
 	if ns == nil {
@@ -69,7 +78,7 @@ func (x *Exec) nodeAfterCommit(appHash []byte) {
 	t := ns.twin
 	t.BeginBlock(timeUnixNano(ns.blk.nanos))
 	if t.Height != x.C.Height {
-		x.Flag("C09-diverge", fmt.Sprintf("twin is at height %d, node at %d", t.Height, x.C.Height))
+		x.diverge(fmt.Sprintf("twin is at height %d, node at %d", t.Height, x.C.Height))
 	}
 	for i, bz := range ns.blk.txs {
 		r := t.Deliver(bz)
@@ -86,7 +95,7 @@ func (x *Exec) nodeAfterCommit(appHash []byte) {
 					continue
 				}
 			}
-			x.Flag("C09-diverge", fmt.Sprintf("height %d tx %d: the two replicas answered DeliverTx differently: code %d/%d gas %d/%d log %q / %q",
+			x.diverge(fmt.Sprintf("height %d tx %d: the two replicas answered DeliverTx differently: code %d/%d gas %d/%d log %q / %q",
 				x.C.Height, i, ns.blk.res[i].Code, r.Code, ns.blk.res[i].GasUsed, r.GasUsed, ns.blk.res[i].Log, r.Log))
 		}
 	}
@@ -95,7 +104,7 @@ func (x *Exec) nodeAfterCommit(appHash []byte) {
 	}
 	h2 := t.EndBlockCommit()
 	if !bytes.Equal(h2, appHash) {
-		x.Flag("C09-diverge", fmt.Sprintf("height %d: application hashes differ between a node with crashes/mempool/query traffic and a plain replica: %x / %x", x.C.Height, appHash, h2))
+		x.diverge(fmt.Sprintf("height %d: application hashes differ between a node with crashes/mempool/query traffic and a plain replica: %x / %x", x.C.Height, appHash, h2))
 	}
 	x.Stats["twin-blocks"]++
 	ns.blk = nil
@@ -332,6 +341,23 @@ func genNodeHistory(r *RNG, nBlocks int) []string {
 				out = append(out, l)
 			}
 		case "ENDTX":
+			// "ghost" transactions: the effects are computed in a branch that is then discarded — simulated but never
+			// delivered, or delivered with a last message that fails — while the inner generator goes on as if they had
+			// happened, so later transactions refer to the ghost topics / writers / denoms / tokens
+			if gk := r.Intn(12); gk < 2 && len(txbuf) >= 2 {
+				if fail := ghostFailingMsg(txbuf[0]); fail != "" {
+					if gk == 0 || r.Bool() {
+						out = append(out, txbuf...)
+						out = append(out, "ENDSIM")
+					}
+					if gk == 1 {
+						out = append(out, txbuf...)
+						out = append(out, fail, l)
+					}
+					txbuf = nil
+					continue
+				}
+			}
 			// mempool traffic for this transaction before (or instead of) its delivery
 			switch r.Intn(8) {
 			case 0:
@@ -379,3 +405,35 @@ func genNodeHistory(r *RNG, nBlocks int) []string {
 }
 
 func timeUnixNano(n int64) time.Time { return time.Unix(0, n).UTC() }
+
+// ghostFailingMsg: a message that passes validation, is signed by the first signer of the transaction, and always fails
+// in its handler (delete a writer of a topic nobody has)
+func ghostFailingMsg(txLine string) string {
+	f := strings.Split(txLine, " ")
+	if len(f) < 3 || f[2] == "-" {
+		return ""
+	}
+	first := strings.Split(f[2], ",")[0]
+	for i := 0; i < 8; i++ {
+		if ac := mkAcct(i); fmt.Sprintf("%x", []byte(ac.Addr)) == first {
+			return "M " + joinSp("aol.DeleteWriter", toks("zz-no-such-topic"), toks(ac.Addr.String()), toks(ac.Addr.String()))
+		}
+	}
+	return ""
+}
+
+// twinQuery asks the never-stopped, traffic-free replica the same question (same height): replicas must agree on every
+// query answer at every height
+func (x *Exec) twinQuery(f []string, ans string) {
+	if x.Node == nil || x.Node.twin == nil || x.C.InBlock || x.Node.twin.Height != x.C.Height {
+		return
+	}
+	main := x.C
+	x.C = x.Node.twin
+	tans := x.query(f)
+	x.C = main
+	x.Stats["twin-queries"]++
+	if tans != ans {
+		x.diverge(fmt.Sprintf("query %s at height %d (asked at %d): the node answers %.120q, a replica that saw only the committed blocks answers %.120q", f[1], x.qHeight, x.C.Height, ans, tans))
+	}
+}
